@@ -93,3 +93,80 @@ def alias_mutation(ctx, rule, rel, classes):
                        f"own array: the state object is modified by a query", role=f"alias:{d.var}:{meth}",
                        line=(bad.lineno if bad is not None else d.stmt.lineno))
     return n_sites
+
+
+def attr_alias_write(ctx, rule, funcs, note=""):
+    """a container read from an attribute chain of another object (`x = cmd.op.p`, `op['args'] = cmd.op.p`: a reference,
+    not a copy) must not be updated in place afterwards (item store, augmented assignment, mutator call) while the binding
+    is still in force - the update would change the object the attribute belongs to"""
+    from ..cfg import cfg_of
+    ctx.explain(f"{rule}: no function updates in place a container it obtained by reference from an attribute of another "
+                "object (binding `t = a.b.c` without a copy, then `t[i] = ..` / `t += ..` / `t.append(..)` on a path on which "
+                f"the binding still holds): the owner of the attribute would be modified. {note}")
+
+    def txt(e):
+        return ast.unparse(e).replace(" ", "")
+
+    skip_roots = {"self", "cls"}
+    n_bind = 0
+    for f in funcs:
+        node = f.node
+        cfg = cfg_of(node)
+        imports = set(f.module.imports)
+        binds = []
+        for n in walk_no_nested(node):
+            if isinstance(n, ast.Assign) and len(n.targets) == 1 and isinstance(n.value, ast.Attribute):
+                src = dotted(n.value)
+                if not src or src.split(".")[0] in skip_roots or src.split(".")[0] in imports:
+                    continue
+                tg = n.targets[0]
+                if isinstance(tg, (ast.Name, ast.Subscript)):
+                    binds.append((n, tg, src))
+        for b, tg, src in binds:
+            bid = cfg.find(b)
+            if not bid:
+                continue
+            n_bind += 1
+            tt = txt(tg)
+            root = tg
+            while isinstance(root, (ast.Subscript, ast.Attribute)):
+                root = root.value
+            rootname = root.id if isinstance(root, ast.Name) else None
+            # the binding dies where the root name (or the bound expression itself) is assigned again
+            kills = set()
+            for nd in cfg.nodes:
+                st = nd.ast
+                if nd.id == bid[0] or st is None:
+                    continue
+                if isinstance(st, ast.Assign):
+                    for t_ in st.targets:
+                        if txt(t_) == tt or (isinstance(t_, ast.Name) and t_.id == rootname):
+                            kills.add(nd.id)
+                elif isinstance(st, ast.For) or nd.kind == "for":
+                    tgt = getattr(st, "target", None)
+                    if tgt is not None and rootname in {x.id for x in ast.walk(tgt) if isinstance(x, ast.Name)}:
+                        kills.add(nd.id)
+            reach = cfg.reachable([b_ for b_, l_ in cfg.succ[bid[0]] if l_ != "x"], avoid=kills, exc=False)
+            bad = None
+            for n in walk_no_nested(node):
+                hit = False
+                if isinstance(n, ast.Assign):
+                    hit = any(isinstance(t_, ast.Subscript) and txt(t_.value) == tt for t_ in n.targets)
+                elif isinstance(n, ast.AugAssign):
+                    hit = txt(n.target) == tt or isinstance(n.target, ast.Subscript) and txt(n.target.value) == tt
+                elif isinstance(n, ast.Call) and isinstance(n.func, ast.Attribute) and n.func.attr in MUTATORS:
+                    hit = txt(n.func.value) == tt
+                elif isinstance(n, ast.Delete):
+                    hit = any(isinstance(t_, ast.Subscript) and txt(t_.value) == tt for t_ in n.targets)
+                if not hit:
+                    continue
+                ids = cfg.find(n) if isinstance(n, ast.stmt) else cfg.node_of_expr(n)
+                if ids and ids[0] in reach and ids[0] != bid[0]:
+                    bad = n
+                    break
+            ok = bad is None
+            ctx.ob(rule, f.site, ok, "" if ok else
+                   f"`{ast.unparse(b)[:50]}` binds a reference to `{src}` and `{ast.unparse(bad)[:50]}` updates it in place: "
+                   f"the object that owns `{src.split('.')[-1]}` is modified", role=f"alias-write:{'.'.join(src.split('.')[-2:])}",
+                   line=(bad.lineno if bad is not None else b.lineno))
+    return n_bind
